@@ -78,6 +78,10 @@ def fill(job, i):
         f.write(f"top {i}")
     with open(job.fn("data/deep/d.bin"), "wb") as f:
         f.write(bytes([i]) * 33)
+    # data that happens to look like a job two levels down must stay data
+    os.makedirs(job.fn("data/deep/inner"), exist_ok=True)
+    with open(job.fn("data/deep/inner/" + SPF), "w") as f:
+        json.dump({"inner": i}, f)
 
 
 def project_content(path):
